@@ -72,47 +72,7 @@ pub fn gcd<const BITS: usize, const LIMBS: usize>(
 }
 //@ end
 
-// Euclid's function is the greatest common divisor: it divides both, and every common divisor divides it
-pub open spec fn mulof(d: nat, k: nat) -> nat { d * k }
-pub open spec fn divides(d: nat, x: nat) -> bool { exists|k: nat| x == #[trigger] mulof(d, k) }
-pub proof fn lemma_sgcd_divides(a: nat, b: nat)
-    ensures divides(sgcd(a, b), a), divides(sgcd(a, b), b)
-    decreases b
-{
-    let g = sgcd(a, b);
-    if b == 0 {
-        assert(a == g * 1) by(nonlinear_arith) requires a == g;
-        assert(b == g * 0) by(nonlinear_arith) requires b == 0;
-        assert(a == mulof(g, 1)); assert(b == mulof(g, 0));
-    } else {
-        lemma_sgcd_divides(b, a % b);
-        let kb = choose|k: nat| b == mulof(g, k);
-        let kr = choose|k: nat| a % b == mulof(g, k);
-        lemma_fundamental_div_mod(a as int, b as int);
-        let q = (a / b) as nat;
-        assert(a == g * (kb * q + kr)) by(nonlinear_arith) requires a == b * q + a % b, b == g * kb, a % b == g * kr;
-        assert(a == mulof(g, kb * q + kr));
-    }
-}
-pub proof fn lemma_sgcd_greatest(a: nat, b: nat, d: nat)
-    requires divides(d, a), divides(d, b), d > 0
-    ensures divides(d, sgcd(a, b))
-    decreases b
-{
-    if b != 0 {
-        let ka = choose|k: nat| a == mulof(d, k);
-        let kb = choose|k: nat| b == mulof(d, k);
-        lemma_fundamental_div_mod(a as int, b as int);
-        let q = (a / b) as nat;
-        let r = a % b;
-        // r == d * (ka - kb*q)
-        assert(kb * q <= ka) by(nonlinear_arith) requires a == d * ka, b == d * kb, a == b * q + r, r >= 0, d > 0;
-        let kr = (ka - kb * q) as nat;
-        assert(r == d * kr) by(nonlinear_arith) requires a == d * ka, b == d * kb, a == b * q + r, kr == ka - kb * q;
-        assert(r == mulof(d, kr));
-        lemma_sgcd_greatest(b, r, d);
-    }
-}
+//@ include lib/sgcd.rs
 
 } // verus!
 fn main() {}
